@@ -98,15 +98,15 @@ CLAIMED = {
              "a Panic of the model and re-establishes J, hence any sequence of commands (C17_commands_never_panic); "
              "(b) C17_next_cmd_never_panics: reading the next command (decoder, Emacs / vi keymaps, digit arguments, bindings, "
              "repeat) never panics, keeps J and touches neither line nor kill ring; (c) every LineBuffer operation is total "
-             "(C03_all_total_wf); the initial state has J; (d) WHOLE READS: with no helper installed (`DefaultEditor`), a read never "
-             "ends in Panic for EVERY input stream, chunking, bindings, prompt, initial text and kill ring -- in Emacs mode (the "
-             "default) with ANY history, the incremental-search sub-loop included (C17_read_never_panics_emacs), and in either mode "
-             "with an empty history (C17_read_never_panics). PARTIAL: vi mode with a non-empty history and reads with a helper "
-             "(completion with a user-supplied completer) are not theorems -- in vi mode known finding K9 (an Alt key inside a "
-             "search pops the search's undo marker) breaks the undo invariant, so J is NOT an invariant of every read; those, the "
-             "select/poll path with a printer, resizes and stop/continue are decided by the junk / long streams on the real back "
-             "end (catch_unwind, stall detection, a result for every read). The proof attempts found F19, F20, F21, F22 (panics, "
-             "repaired) and K9.",
+             "(C03_all_total_wf); the initial state has J; (d) WHOLE READS: a read never ends in Panic for EVERY input stream, "
+             "chunking, bindings, prompt, initial text and kill ring -- in EMACS MODE (the default) with ANY history and ANY helper "
+             "whose completer keeps its contract (span start on a character boundary at or before the cursor; hinter, highlighter, "
+             "validator arbitrary), the incremental-search and completion sub-loops included (C17_read_never_panics_emacs); and in "
+             "either mode without a helper and with an empty history (C17_read_never_panics). PARTIAL: vi mode with a history or a "
+             "helper is not a theorem -- there known finding K9 (an Alt key inside a search pops the search's undo marker) breaks "
+             "the undo invariant, so J is NOT an invariant of every read; that, the select/poll path with a printer, resizes and "
+             "stop/continue are decided by the junk / long streams on the real back end (catch_unwind, stall detection, a result "
+             "for every read). The proof attempts found F19, F20, F21, F22 (panics, repaired) and K9.",
         note=TTY_NOTE + "Runtime behaviour (signals, unsafe, kernel) is exercised, not modelled; debug_assert! conditions of the layout are not modelled.",
         technique="Coq proof: progress calculus over the editor monad (input size non-increasing / decreasing, fuel bounded by input) with fuel induction for all nine loops; totality calculus for the decoder; invariant-preservation calculus (no Panic + J) over every command and the whole keymap, resting on the totality of every line-buffer operation; extracted-model differential check on junk input through a pty + crash/stall oracle"),
     "C16": dict(
